@@ -30,7 +30,7 @@ func c22(c *Ctx) {
 			{"grpc", "pickerWrapper.pick", doneOf(ParamV("ctx")), "picker wait"},
 			{"grpc", "ClientConn.waitForResolvedAddrs", doneOf(ParamV("ctx")), "name-resolution wait"},
 			{"grpc", "csAttempt.shouldRetry", doneOf(FieldLoad(c.field("grpc", "clientStream", "ctx"))), "retry backoff wait"},
-			{tr, "http2Client.NewStream", doneOf(ParamV("ctx")), "stream-quota wait"},
+			{tr, "http2Client.NewStream", doneOf(DataDep(ParamV("ctx"))), "stream-quota wait"},
 			{tr, "writeQuota.get", FieldLoad(c.field(tr, "writeQuota", "done")), "write-quota wait"},
 			{tr, "ClientStream.waitOnHeader", doneOf(FieldLoad(c.field(tr, "Stream", "ctx"))), "header wait"},
 			{tr, "recvBufferReader.read", FieldLoad(c.field(tr, "recvBufferReader", "ctxDone")), "receive wait"},
